@@ -61,8 +61,13 @@ FirstOf(toks, obs, p) == CHOOSE j \in Bind(toks, obs) : OrigOf(toks[j]) = p /\ \
 NewDb(toks, obs) ==
     LET new == {OrigOf(toks[j]) : j \in Bind(toks, obs)} \ DOMAIN db
     IN [p \in DOMAIN db \cup new |-> IF p \in DOMAIN db THEN db[p] ELSE obs[FirstOf(toks, obs, p)].v]
+(* (also a keyword whose occurrence is rewritten through ANOTHER, shorter keyword - topsecret -> topkeyword0 -: *)
+(*  the pair that explains the output is the shorter keyword's; the longer one need not be listed, but if it   *)
+(*  is listed its substitute must be the text in the output)                                                    *)
 NewSelfs(toks, obs) ==
-    selfs \cup {p \in {OrigOf(toks[j]) : j \in Bind(toks, obs)} \ DOMAIN db : obs[FirstOf(toks, obs, p)].st = "self"}
+    selfs \cup {p \in {OrigOf(toks[j]) : j \in Bind(toks, obs)} \ DOMAIN db :
+                   \/ obs[FirstOf(toks, obs, p)].st = "self"
+                   \/ p[1] = "kw" /\ obs[FirstOf(toks, obs, p)].st = "other"}
 
 LeakIdx(toks, obs) == {j \in DOMAIN toks : MustHide(toks[j], cf, CurSp) /\ obs[j].st = "kept"}
 PatBad(toks, obs)  == MustDrop(toks, cf, CurSp) /\ \E j \in DOMAIN toks : obs[j].st # "dropped"
@@ -166,6 +171,7 @@ Feat(g, occ) ==
     ELSE IF cf.fam = "prefix" /\ g = "ip" /\ sp2 THEN "address-is-prefix-of-another"
     ELSE IF cf.fam \in {"kwdom", "kwhost"} /\ g \in {"host", "kw"} THEN "keyword-inside-host-name"
     ELSE IF cf.fam = "v6lb" /\ g = "ip6" THEN "address-after-bracket-caret-backtick"
+    ELSE IF cf.fam \in {"kwsub", "kwsup"} /\ g = "kw" THEN "keyword-inside-keyword"
     ELSE "plain"
 Sw == (IF cf.obf THEN "O" ELSE "o") \o (IF cf.host THEN "H" ELSE "h") \o (IF cf.mac THEN "M" ELSE "m")
 
